@@ -390,6 +390,13 @@ def check_rejections_propagate(ctx, rule, narrowing_fns, variants=("OutOfRangeIn
                 if not errcase:
                     continue
                 k = cb._ctor(v)
+                if k and k[1] == "None" and f.kind == "Closure" and any(s == ct for s in subterms(pv.return_term())):
+                    # `.filter_map(|v| T::from_cbor_value(v).ok())`: the closure hands the None to an adaptor that drops the element
+                    ntests += 1
+                    ctx.ob(rule, "propagates:%s:%s" % (f.key, callee_path(f.blocks[site_of(recv)]["term"])), False,
+                           "a rejection by %s is discarded with `.ok()` in a closure that returns the Option (%s)" % (
+                               callee_path(f.blocks[site_of(recv)]["term"]), f.key), where=f.where(bb))
+                    continue
                 if k and k[1] in ("Err", "None"):
                     continue        # still a failure (None: an Option the caller has to test; not judged here)
                 if v[0] == "field" and v[1][0] == "variant" and v[1][2] == "Err":
